@@ -200,6 +200,11 @@ fn run(case: &Val) -> Val {
             }
             continue;
         }
+        if op[0].n() == 3 {
+            // somebody else removes a directory with everything below it (a cleanup job, an unmount)
+            let _ = std::fs::remove_dir_all(op[1].str());
+            continue;
+        }
         if op[0].n() != 0 {
             if odd_name {
                 if let Some(parent) = actual.parent() {
